@@ -408,7 +408,7 @@ def c08(cases, warm, f64=False):
             exp = c.desc[1] + c.desc[2] + 1
         if exp is not None and exp <= L and first != exp:
             out.append(viol("c08-warmup-" + name.lower(), "%s first reports at value %s, documented: %d" % (d_sexpr(c.desc), first, exp), [c]))
-        if name in ("Welford", "Vst", "Vsct") and first is not None and not (max(1, n - 1) <= first <= max(1, n)):
+        if name in ("Welford", "Vst", "Vsct") and L >= n and (first is None or not (max(1, n - 1) <= first <= max(1, n))):
             out.append(viol("c08-warmup-" + name.lower(), "%s first reports at value %s, documented: between N-1 and N" % (d_sexpr(c.desc), first), [c]))
     return out
 
@@ -694,6 +694,7 @@ def c09(longs, pairs, w3, U):
 
 # ---------------------------------------------------------------------------------- C16
 VALUE_LIKE = {"Sma", "Cumulative", "Alma", "Welford", "WelfordMean", "Vst", "Ema", "Min", "Max", "WRolling", "WRollingMean", "Cyber"}
+C16_WIDTH = {"Rsi": F(100), "Cog": None}
 def c16(groups, tol=None):
     out = []
     for (kind, cf, ce, flatv) in groups:
@@ -703,7 +704,7 @@ def c16(groups, tol=None):
         mag = max(xs) if xs else F(1)
         if name == "Cumulative":
             mag = mag * n
-        width = {"Rsi": F(100), "Roc": None}.get(name, F(2))
+        width = {"Rsi": F(100), "Roc": None, "Cog": F(max(n - 1, 1))}.get(name, F(2))
         scale_ = mag if name in VALUE_LIKE else width
         if name == "Roc":
             scale_ = F(100)
